@@ -180,6 +180,9 @@ def runTap (v : Nat) (c : Config) : String × String :=
 
 /-- returns (model output, spec output) -/
 def run (line : String) : String × String :=
+  -- [t8:pipe] whole configurations on the real pipeline are judged on the implementation's own
+  -- trace by the runner (`_c11_free_oracle`); the model says nothing about them
+  if line.startsWith "C11 pipe " then ("pipe", "-") else
   match runP parseCase line with
   | .error e => (s!"bad-case {e}", "-")
   | .ok (.code v) => runCode v
